@@ -8,6 +8,7 @@
 -/
 import DfModel.Mech.Partitioned
 import DfModel.Proofs.C02
+import DfModel.Proofs.C02b
 namespace DfModel.Props.C02
 open DfModel DfModel.Mech.Partitioned DfModel.Proofs.C02
 
@@ -89,14 +90,75 @@ theorem join_partitionwise (θ : Row → Row → Bool) (jt : JoinType) (hjt : le
   rw [flatMap_congr' _ _ _ hparts]
   exact partition_flatMap_perm n (fun l => h (kL l) % n) (fun l => Nat.mod_lt _ hn) L (perLeft θ jt wr R)
 
-/-- full statement: the same for all ten join types (the right-driven ones by symmetry, RIGHT and
-    FULL as a left-driven part followed by the unmatched right rows) -/
-def join_partitionwise_statement : Prop :=
-  ∀ (θ : Row → Row → Bool) (jt : JoinType) (wl wr n : Nat), 0 < n →
-    ∀ (kL kR : Row → Row) (h : Row → Nat) (L R : List Row), (∀ l r, θ l r = true → kL l = kR r) →
-    ((List.range n).flatMap (fun i =>
-        joinRows θ jt wl wr ((hashRepartition n kL h L)[i]?.getD []) ((hashRepartition n kR h R)[i]?.getD []))).Perm
-      (joinRows θ jt wl wr L R)
+/-- the per-partition inputs of a partitioned join -/
+abbrev partL (n : Nat) (k : Row → Row) (h : Row → Nat) (X : List Row) (i : Nat) : List Row :=
+  (hashRepartition n k h X)[i]?.getD []
+
+/-- the three right-driven types are the left-driven ones with the sides exchanged -/
+theorem join_partitionwise_right (θ : Row → Row → Bool) (jt : JoinType)
+    (hjt : jt = .rightSemi ∨ jt = .rightAnti ∨ jt = .rightMark) (wl wr n : Nat) (hn : 0 < n)
+    (kL kR : Row → Row) (h : Row → Nat) (L R : List Row)
+    (hθ : ∀ l r, θ l r = true → kL l = kR r) :
+    ((List.range n).flatMap (fun i => joinRows θ jt wl wr (partL n kL h L i) (partL n kR h R i))).Perm
+      (joinRows θ jt wl wr L R) := by
+  have hflip : ∀ r l, (fun r l => θ l r) r l = true → kR r = kL l := fun r l hrl => (hθ l r hrl).symm
+  rcases hjt with rfl | rfl | rfl
+  · exact join_partitionwise (fun r l => θ l r) .leftSemi rfl wr wl n hn kR kL h R L hflip
+  · exact join_partitionwise (fun r l => θ l r) .leftAnti rfl wr wl n hn kR kL h R L hflip
+  · exact join_partitionwise (fun r l => θ l r) .leftMark rfl wr wl n hn kR kL h R L hflip
+
+theorem flatMap_map' {α β γ : Type} (l : List α) (f : α → List β) (g : β → γ) :
+    l.flatMap (fun a => (f a).map g) = (l.flatMap f).map g := by
+  induction l with
+  | nil => rfl
+  | cons a as ih => simp [ih]
+
+/-- **join_partitionwise for all ten join types** (`HashJoinExec` in `PartitionMode::Partitioned`):
+    RIGHT and FULL are a left-driven part followed by the unmatched right rows -/
+theorem join_partitionwise_all (θ : Row → Row → Bool) (jt : JoinType) (wl wr n : Nat) (hn : 0 < n)
+    (kL kR : Row → Row) (h : Row → Nat) (L R : List Row)
+    (hθ : ∀ l r, θ l r = true → kL l = kR r) :
+    ((List.range n).flatMap (fun i => joinRows θ jt wl wr (partL n kL h L i) (partL n kR h R i))).Perm
+      (joinRows θ jt wl wr L R) := by
+  have anti := join_partitionwise_right θ .rightAnti (Or.inr (Or.inl rfl)) wl wr n hn kL kR h L R hθ
+  have antiMap : ((List.range n).flatMap (fun i =>
+      (rightAntiJoin θ (partL n kL h L i) (partL n kR h R i)).map (nulls wl ++ ·))).Perm
+      ((rightAntiJoin θ L R).map (nulls wl ++ ·)) := by
+    rw [flatMap_map']
+    exact List.Perm.map _ anti
+  cases jt with
+  | inner => exact join_partitionwise θ .inner rfl wl wr n hn kL kR h L R hθ
+  | left => exact join_partitionwise θ .left rfl wl wr n hn kL kR h L R hθ
+  | leftSemi => exact join_partitionwise θ .leftSemi rfl wl wr n hn kL kR h L R hθ
+  | leftAnti => exact join_partitionwise θ .leftAnti rfl wl wr n hn kL kR h L R hθ
+  | leftMark => exact join_partitionwise θ .leftMark rfl wl wr n hn kL kR h L R hθ
+  | rightSemi => exact join_partitionwise_right θ .rightSemi (Or.inl rfl) wl wr n hn kL kR h L R hθ
+  | rightAnti => exact anti
+  | rightMark => exact join_partitionwise_right θ .rightMark (Or.inr (Or.inr rfl)) wl wr n hn kL kR h L R hθ
+  | right =>
+    have inner := join_partitionwise θ .inner rfl wl wr n hn kL kR h L R hθ
+    simp only [joinRows, rightJoin] at inner ⊢
+    exact (flatMap_append_perm (List.range n) _ _).trans (List.Perm.append inner antiMap)
+  | full =>
+    have left := join_partitionwise θ .left rfl wl wr n hn kL kR h L R hθ
+    simp only [joinRows, fullJoin] at left ⊢
+    exact (flatMap_append_perm (List.range n) _ _).trans (List.Perm.append left antiMap)
+
+/-- **broadcast join** (`PartitionMode::CollectLeft`, sides named here so that the broadcast side is
+    the right one): the probe side split in ANY way (any class function `c` with `n` classes — hash,
+    round robin, the input's own partitions), the other side whole in every partition.  Sound for the
+    join types driven by the partitioned side only (inner, left, semi, anti, mark on that side); the
+    other types need the shared "visited" state that `HashJoinExec` keeps across partitions. -/
+theorem join_broadcast (θ : Row → Row → Bool) (jt : JoinType) (hjt : leftDriven jt = true) (wl wr n : Nat)
+    (c : Row → Nat) (hc : ∀ l, c l < n) (L R : List Row) :
+    ((List.range n).flatMap (fun i => joinRows θ jt wl wr (L.filter (fun l => c l == i)) R)).Perm
+      (joinRows θ jt wl wr L R) := by
+  rw [joinRows_perLeft θ jt wl wr L R hjt]
+  have : ∀ i ∈ List.range n, joinRows θ jt wl wr (L.filter (fun l => c l == i)) R
+      = (L.filter (fun l => c l == i)).flatMap (perLeft θ jt wr R) :=
+    fun i _ => joinRows_perLeft θ jt wl wr _ R hjt
+  rw [flatMap_congr' _ _ _ this]
+  exact partition_flatMap_perm n c hc L (perLeft θ jt wr R)
 
 /-! ### LIMIT pushdown -/
 
@@ -186,12 +248,18 @@ theorem agg_two_stage_count (parts : List (List Val)) (hsmall : inRange 64 true 
       constructor <;> omega
     rw [wrapInt_of_inRange 64 true _ (by decide) hrange]
 
-/-- full statement for SUM / MIN / MAX (the merge functions are associative and commutative on the
-    wrapped integers / the total order `cmpVal`; not proved here — every run compares the engine's
-    two-stage results with the single-stage reference instead) -/
-def agg_two_stage_statement : Prop :=
-  ∀ (fn : AggFn) (parts : List (List Val)), fn ≠ .countStar → parts ≠ [] →
-    (∀ v ∈ parts.flatten, v = .null ∨ ∃ n, v = .int 64 true n) →
+/-- **agg_two_stage** for SUM over an Int64 column (NULLs anywhere, any values incl. MIN/MAX): the
+    partial sums wrap like the engine's `add_wrapping`, the final stage adds them wrapping again, and
+    the result is the wrapped total — for every split into partitions, empty partitions included -/
+theorem agg_two_stage_sum (parts : List (List Val)) (h : Typed parts.flatten) :
+    twoStage .sum parts = aggVals .sum false parts.flatten.length parts.flatten :=
+  twoStage_sum parts h
+
+/-- full statement for MIN / MAX (needs associativity of `minVal` / `maxVal` on the total preorder
+    `cmpVal` with "first wins" ties; not proved here — every run compares the engine's two-stage
+    results with the model's two-stage and single-stage results through op `twostage`) -/
+def agg_two_stage_minmax_statement : Prop :=
+  ∀ (fn : AggFn) (parts : List (List Val)), (fn = .min ∨ fn = .max) → Typed parts.flatten →
     twoStage fn parts = aggVals fn false parts.flatten.length parts.flatten
 
 /-! ### non-vacuity / tests -/
